@@ -190,3 +190,4 @@ pub mod c10;
 pub mod c22;
 pub mod c07;
 pub mod c08;
+pub mod c09;
